@@ -332,12 +332,37 @@ def explore(
                 continue
             if st["file"] is not None:
                 shutil.copy(st["file"], run_file)
-            r = run_process(resume_scn or scn, workdir, resume=(route, st["live"] if route == "dict_live" else st["payload"]), proc_no=1 + si)
+            source = st["live"] if route == "dict_live" else st["payload"]
+            again = False
+            if route == "dict_live" and si % 2 == 1:
+                # The caller's dictionary stays "the last checkpoint written" when a continuation started from it dies before
+                # delivering its next checkpoint: interrupt a first continuation early, then resume AGAIN -- from the newest
+                # dictionary the caller holds (the same object, unless the dying continuation delivered a newer one).
+                m = int(si // 2) % 3
+                c1 = run_process(resume_scn or scn, workdir, resume=(route, source), crash=("like", m, "model_error"), proc_no=20 + si)
+                out["evaluations"] += 1
+                out["events"] += len(c1.trace.events)
+                if c1.status in ("crashed", "ok"):
+                    # ("ok": the continuation had fewer likelihood calls than m and finished; its forced final checkpoint is
+                    # then the newest dictionary)
+                    again = True
+                    fired("crash_in_continuation_from_live_dict" if c1.status == "crashed" else "finished_continuation_from_live_dict")
+                    if ck["mode"] == "callback" and c1.live_states:
+                        source = c1.live_states[-1]
+                    elif file_mode and c1.payloads and c1.sampler is not None and c1.sampler.last_checkpoint_state is not None:
+                        source = c1.sampler.last_checkpoint_state
+                    else:
+                        probe("same_live_dict_resumed_twice")
+                    if st["file"] is not None and not c1.payloads:
+                        shutil.copy(st["file"], run_file)
+            r = run_process(resume_scn or scn, workdir, resume=(route, source), proc_no=1 + si)
             out["evaluations"] += 1
             out["resumes"] += 1
             out["events"] += len(r.trace.events)
-            fired(f"restart:{route}")
+            fired(f"restart:{route}" + ("_again" if again else ""))
             wr = {**where, "route": route, "resumed_iteration": it0}
+            if again:
+                wr["after_interrupted_continuation"] = True
             if r.status != "ok":
                 if "c11" in want:
                     V.append(
